@@ -5,6 +5,13 @@ import vlib
 from checks import c06
 
 SD = os.path.join(vlib.SPECS, "http")
+# the TLS transport: the engine's plaintext side is mapped onto the scripted socket by the driver
+TLS_WRAPS = ["SSL_read_ex", "SSL_write_ex", "SSL_get_error", "SSL_shutdown", "SSL_set_fd"]
+
+
+def tls(p):
+    """the same scenario over https_request / netbuf_ssl / network_ssl"""
+    return p.replace("\nmaxrlen ", "\ntls\nmaxrlen ", 1)
 
 
 def build(c):
@@ -15,7 +22,7 @@ def build(c):
                          "util/sock.c", "util/sock_util.c", "util/asprintf.c", "alg/sha256.c", "alg/sha256_shani.c", "alg/sha256_sse2.c",
                          "util/insecure_memzero.c", "cpusupport/cpusupport_x86_shani.c", "cpusupport/cpusupport_x86_sse2.c",
                          "cpusupport/cpusupport_x86_ssse3.c"]))
-    return vlib.build(c.dir, "drv_http", srcs, wraps=c06.WRAPS, libs=["-lssl", "-lcrypto"])
+    return vlib.build(c.dir, "drv_http", srcs, wraps=c06.WRAPS + TLS_WRAPS, libs=["-lssl", "-lcrypto"])
 
 
 def hx(b):
@@ -310,14 +317,18 @@ def run(c, prop):
     nh = c.pick(1500, 20000) if prop == "C08" else c.pick(300, 5000)
 
     def programs():
+        # every fourth scenario runs over the TLS transport (https_request: netbuf_ssl and network_ssl under http.c)
         for i, s in enumerate(cases):
-            yield wellformed(s, rnd, i + c.seed)
+            p = wellformed(s, rnd, i + c.seed)
+            yield tls(p) if i % 4 == 3 else p
         for i in range(nh):
-            yield hostile(rnd, i + c.seed)
+            p = hostile(rnd, i + c.seed)
+            yield tls(p) if i % 4 == 3 else p
         # well-formed responses cancelled at every early instant
         for i in range(c.pick(60, 600)):
             p = wellformed(simple_response(rnd, i), rnd, i)
-            yield p.replace("\nend\n", "\ncancel %d\nend\n" % rnd.randint(0, 8))
+            p = p.replace("\nend\n", "\ncancel %d\nend\n" % rnd.randint(0, 8))
+            yield tls(p) if i % 4 == 3 else p
     # in batches: a program holds its response as hex text (megabytes for the largest), so neither all programs nor all
     # recorded executions are kept in memory at once
     batch, k, size = [], 0, 0
@@ -336,6 +347,7 @@ def run(c, prop):
                      "to bytes, plus structured hostile mutations (bad/huge/negative/whitespace chunk sizes, missing CRLF, NUL bytes, >64 KiB headers, 1xx "
                      "floods, bodies at/below/above the limit, buffer-edge alignment of empty lines, truncation at random offsets, bit flips), every one under "
                      "several segmentations down to single bytes, with EAGAIN/EINTR noise, EOF/error/stall endings, connection plans and cancellation instants; "
+                     "every fourth scenario over the TLS transport (https_request, netbuf_ssl, network_ssl; the engine's plaintext side mapped onto the same scripted socket); "
                      "executed by the real http.c stack in a forked child (ASan/UBSan/LSan) and validated by TLC against HttpTrace.tla; "
                      "non-trivial = the client read at least one answer; distinct = SHA-256 of the program")
     c.cov["trusted_base"] = ["TLC", "Python concretiser of HttpGen structures (encoder side of the oracle)", "fake kernel + scripted sockets",
